@@ -432,6 +432,41 @@ pub fn replay_arith(case: &Value, rep: &mut Report, rng: &mut Rng) {
                     }
                 }
             }
+            // Float mode for the products: the matrix-vector product is, row by row, the left-to-right single-precision
+            // sum of the single-precision products (no fused multiply-add, no re-association); the outer product and the
+            // transpose are exact element by element.
+            if matches!(op, "dot" | "product" | "transpose") {
+                let fa = same_shape_random(&acc, rng);
+                let fargs: Vec<Tensor> = args.iter().map(|t| same_shape_random(t, rng)).collect();
+                if let Ok(fr) = apply_arith(&fa, op, &fargs, &step["extra"]) {
+                    use neurons::tensor::Data;
+                    let want: Option<Vec<f32>> = match (op, &fa.data) {
+                        ("dot", Data::Double(m)) => {
+                            let v = flat(&fargs[0]);
+                            Some(m.iter().map(|row| row.iter().zip(v.iter()).fold(0.0f32, |s, (a, b)| s + a * b)).collect())
+                        }
+                        ("product", Data::Single(a)) => {
+                            let b = flat(&fargs[0]);
+                            Some(a.iter().flat_map(|x| b.iter().map(move |y| x * y)).collect())
+                        }
+                        ("transpose", Data::Double(m)) => {
+                            let (r, c) = (m.len(), m.first().map(|x| x.len()).unwrap_or(0));
+                            Some((0..c).flat_map(|j| (0..r).map(move |i| (i, j))).map(|(i, j)| m[i][j]).collect())
+                        }
+                        _ => None,
+                    };
+                    if let Some(want) = want {
+                        let got = flat(&fr);
+                        rep.checks += 1;
+                        // (+0.0 and -0.0 compare equal here: the sum of an empty or all-zero row has no prescribed sign)
+                        let bad = if got.len() != want.len() { Some(0) } else { (0..got.len()).find(|k| got[*k] != want[*k] && !(got[*k].is_nan() && want[*k].is_nan())) };
+                        if let Some(k) = bad {
+                            rep.mismatch("C15", "float_value", &id, json!({"step": i, "op": op, "element": k, "observed": got.get(k).map(|v| format!("{:e}", v)), "expected": want.get(k).map(|v| format!("{:e}", v))}), case);
+                            return;
+                        }
+                    }
+                }
+            }
             acc = result;
         } else {
             interesting = true;
